@@ -47,8 +47,13 @@ def rule_checksum_gate(ctx: Ctx, rep: Report) -> None:
     rep.ob(rule, "bip39.seed_from_mnemonic", ok, s.where(), "the checksum is verified unless the caller turns it off (default on)")
     if pb:
         a = pb[0].args
-        vals = {n.targets[0].id: ctx.fold(n.value, s.module) for n in own_nodes(s.node) if isinstance(n, ast.Assign) and isinstance(n.targets[0], ast.Name)}
-        rep.ob(rule, "bip39:stretching", vals.get("hf_name") == "sha512" and vals.get("iterations") == 2048 and vals.get("dksize") == 64 and "salt = f'mnemonic{passphrase}'.encode()" in norm(s.node), s.where(), "PBKDF2-HMAC-SHA512, 2048 rounds, 64 bytes, salt 'mnemonic'+passphrase")
+        defs = {n.targets[0].id: n.value for n in own_nodes(s.node) if isinstance(n, ast.Assign) and isinstance(n.targets[0], ast.Name)}
+
+        def val(e):
+            return ctx.fold(defs[e.id], s.module) if isinstance(e, ast.Name) and e.id in defs else ctx.fold(e, s.module)
+        salt = defs.get(a[2].id) if len(a) > 2 and isinstance(a[2], ast.Name) else (a[2] if len(a) > 2 else None)
+        oks = len(a) >= 5 and val(a[0]) == "sha512" and val(a[3]) == 2048 and val(a[4]) == 64 and salt is not None and norm(salt) == "f'mnemonic{passphrase}'.encode()"
+        rep.ob(rule, "bip39:stretching", oks, s.where(), "PBKDF2-HMAC-SHA512, 2048 rounds, 64 bytes, salt 'mnemonic'+passphrase")
     sh = ctx.func(f"{S39}.share_from_mnemonic")
     g = ctx.cfg(sh)
     hits = [n for t, pol, n in ctx.refusals(sh) if pol is False and isinstance(t, ast.Call) and call_name(t) == "_rs1024_verify"]
@@ -93,8 +98,14 @@ def rule_thresholds(ctx: Ctx, rep: Report) -> None:
     rep.ob(rule, "share:min_words", any(c.subject == "n_words" and c.op == "<" and c.value == 20 for c in cs) and ctx.const(S39, "_MIN_WORDS") == 20, sh.where(), "at least 20 words")
     rep.ob(rule, "share:padding", any(c.subject == "padding" and c.op == ">" and c.value == 8 for c in cs) and any("value_bits[:padding]" in c.subject and c.op == "!=" for c in cs), sh.where(), "at most 8 padding bits, all zero")
     txt = PT.text(sh)
-    rep.ob(rule, "share:+1_fields", "group_threshold=int(bits[field + 4:field + 8], 2) + 1" in txt and "group_count=int(bits[field + 8:field + 12], 2) + 1" in txt and "member_threshold=int(bits[field + 16:field + 20], 2) + 1" in txt
-           and "group_index=int(bits[field:field + 4], 2)" in txt and "member_index=int(bits[field + 12:field + 16], 2)" in txt, sh.where(), "thresholds and counts are stored minus one; indexes as they are")
+    want = {"group_index": "int($b[$f:$f + 4], 2)", "group_threshold": "int($b[$f + 4:$f + 8], 2) + 1", "group_count": "int($b[$f + 8:$f + 12], 2) + 1",
+            "member_index": "int($b[$f + 12:$f + 16], 2)", "member_threshold": "int($b[$f + 16:$f + 20], 2) + 1"}
+    okf = False
+    for c in own_nodes(sh.node):
+        if isinstance(c, ast.Call) and {k.arg for k in c.keywords} >= set(want):
+            mb: dict[str, str] = {}
+            okf = all(PT.match(PT.compile_(pat), next(k.value for k in c.keywords if k.arg == name), mb) for name, pat in want.items())
+    rep.ob(rule, "share:+1_fields", okf, sh.where(), "thresholds and counts are stored minus one; indexes as they are")
     cf = ctx.func(f"{S39}._common_field")
     txt = PT.text(cf)
     need = ["share.identifier", "share.extendable", "share.iteration_exponent", "share.group_threshold", "share.group_count", "len(share.value)"]
